@@ -287,7 +287,7 @@ def run_lib(env, case):
 
 # ================================================================================================ (ii) reference prover
 ADV = ["honest", "honest", "exact", "exact", "exp_hi", "reserved", "mant_hi", "overflow", "overflow", "overflow", "exp_overflow", "spare_bits", "trailing", "digit_bad_x", "digit_bad_x",
-       "digit_x_plus_p", "scalar_zero", "last_inf", "wrong_witness", "f3", "ref_sender"]
+       "digit_x_plus_p", "scalar_zero", "last_inf", "wrong_witness", "f3", "ref_sender", "cancelling_digits", "cancelling_digits"]
 MANT_SMALL = [1, 1, 2, 2, 3, 3, 4, 5, 5, 6, 7, 8, 9, 11, 16, 17, 19, 33]
 
 
@@ -385,6 +385,11 @@ def build_ref(env, case):
     if a == "f3":
         if not mant & 1:
             mant = mant - 1 if mant > 1 else 1
+    if a == "cancelling_digits" and mant < 7:
+        # needs at least three explicit digit commitments (four rings)
+        mant = clamp_mant(7 + param % 6, exp)
+        if mant < 7:
+            exp, mant = 0, 7 + param % 6
     if a in ("last_inf",) and hk is None:
         hk = derive(seed, b"hk")
         H = ec.mulg(hk)
@@ -397,6 +402,8 @@ def build_ref(env, case):
     maxv = ((1 << mant) - 1) * scale if mant else 0
     # ---- minimum
     minsel = case["minsel"]
+    if a == "cancelling_digits" and minsel in ("small", "max"):
+        minsel = "zero" if minsel == "small" else "none"      # min = 0: the verifier's running sum starts empty
     if a == "exact":
         minsel = "small" if minsel == "none" and param & 1 else minsel
     if a == "overflow":
@@ -443,6 +450,27 @@ def build_ref(env, case):
             return None
         g = None
         xplus = (i,)
+    if a == "cancelling_digits":
+        # related free values at several positions: blinding factors of explicit digit commitments chosen so that a partial sum of the digit
+        # commitments is the point at infinity (digits 0, blinds summing to 0).  The specification only forbids the IMPLIED LAST commitment to be infinity.
+        ne = rings - 1
+        sub = (param >> 8) % 4
+        if sub == 0:
+            idx = [0, 1]                                   # C_1 = -C_0: the running sum after two terms is infinity
+        elif sub == 1:
+            idx = [0, 1, 2]                                # three-term prefix
+        elif sub == 2:
+            idx = list(range(2 + (param >> 12) % (ne - 1)))            # prefix of any length 2..ne
+        else:
+            a0 = (param >> 12) % ne                        # a cancelling pair anywhere (not necessarily a prefix)
+            b0 = (a0 + 1 + (param >> 16) % (ne - 1)) % ne
+            idx = sorted([a0, b0])
+        for i in idx:
+            digits[i] = 0
+        secs[idx[-1]] = (-sum(secs[i] for i in idx[:-1])) % N
+        if secs[idx[-1]] == 0:
+            return None
+        classes.append("cancel:" + ("prefix%d" % len(idx) if idx == list(range(len(idx))) else "pair_inner"))
     if a == "last_inf":
         if rings == 1 and minv == 0:
             minv, hasmin = 1 + param % 1000, True          # otherwise the commitment itself would be the point at infinity
@@ -766,7 +794,8 @@ TESTS = [
     Test("ref_prover", ref_case, run_ref, quick=600, thorough=16000, max_workers=16,
          must_cover=["small_s", "s_plus_n_twin", "honest:accepted", "exact:accepted", "exp_hi:rejected", "reserved:rejected", "mant_hi:rejected", "overflow:just_below", "overflow:at",
                      "overflow:above", "overflow:accepted", "overflow:rejected", "exp_overflow:rejected", "spare_bits:rejected", "trailing:rejected", "digit_x_ge_p", "digit_off_curve",
-                     "digit_x_plus_p:accepted", "digit_x_plus_p_twin", "scalar_zero:rejected", "last_inf:rejected", "wrong_witness:rejected", "ref_sender_rewound", "mant=33-64"]),
+                     "digit_x_plus_p:accepted", "digit_x_plus_p_twin", "scalar_zero:rejected", "last_inf:rejected", "wrong_witness:rejected", "ref_sender_rewound", "mant=33-64",
+                     "cancelling_digits:accepted", "cancel:prefix2", "cancel:prefix3", "cancel:pair_inner"]),
     Test("rewind_digit_outside_ring", _only("f3"), run_ref, quick=60, thorough=2000, max_workers=8, must_cover=["f3:accepted"]),
     Test("random_strings", rand_case, run_rand, quick=400, thorough=20000, max_workers=4, must_cover=["format_ok", "format_reject"]),
     Test("huge_plen", huge_case, run_huge, quick=60, thorough=600, max_workers=2, cfgs={"quick": ["prod"], "thorough": ["prod"]},
